@@ -355,7 +355,7 @@ def parse_val(text: str):
     (VZ -> int, VB -> bytes, VS -> str, VL -> list)."""
     m = re.search(r"=\s*(.*?):\s*val\s*$", text, re.S)
     src = m.group(1) if m else text
-    src = re.sub(r"%[NZ]", "", src)
+    src = re.sub(r"%(string|nat|N|Z)\b", "", src)
     toks = re.findall(r'"(?:[^"]|"")*"|\[|\]|;|\(|\)|-?\d+|[A-Za-z_]+', src)
     pos = 0
 
